@@ -46,3 +46,10 @@ check("C10",
   "For every generated (formula, placement of an unseen level in predictor / interaction factor / effect / grouping variables, mode, sequence of mode changes) the real evaluate_new_data runs on new rows with and without the unseen value; numeric cells are z3 reals. error mode must raise; otherwise columns of the variable are zero on exactly those rows, every other entry equals the reference run (z3), warning warns; group matrices get exactly one trailing block per term of a factor with unseen groups carrying the effect values of those rows, slices are contiguous and shifted, factors_with_new_levels is exact. Config is exercised on documented and near-miss key/value strings through both __setitem__ and setattr.",
   "Trusted: z3; stubs in evidence; the reference for 'what they would be without them' is the evaluation with the training value in place of the unseen one. One unseen level per variable; 4-row new frames. Config candidates are a finite list (not arbitrary strings): CrossHair 0.0.110 could not exhaust symbolic str keys within 40 s per condition and is not used.",
   "DESIGN.md section 4 C10")
+
+check("C17",
+  "symbolic execution of the real pipeline and of chains of evaluate_new_data on z3-real cells; container invariants checked on every reachable matrix object, view equalities decided on z3 terms",
+  "model_checking",
+  "For every generated (formula, flavour, chain of evaluate_new_data calls with/without unseen groups) every reachable ResponseMatrix, CommonEffectsMatrix, GroupEffectsMatrix and DesignMatrices is inspected: slices contiguous from zero in term order and covering the columns; m[name] equals the slice and unknown names raise ValueError; data-frame view, numpy view, tuple unpacking and design_matrix hold the same z3 terms; labels unique and as many as columns; equal row counts; str()/repr() succeed and contain the actual shape; the original design is re-inspected after the chain.",
+  "Trusted: z3; stubs in evidence. Chains up to length 2 (quick) / 3 (thorough); new frames of 4 rows.",
+  "DESIGN.md section 4 C17")
